@@ -1,1 +1,89 @@
-def install(e): pass
+"""crossbeam_channel::unbounded as a lossless, non-duplicating FIFO with sender/receiver counts.
+try_recv honours a harness-controlled *visibility cut* (hooks['chan_cut']): every interleaving of a poll with
+the producer's sends is equivalent to the poll seeing a prefix of the messages sent so far."""
+import z3
+from .engine import *
+from .models import deref, d1, unguard, It
+
+class Hang(BoundExceeded): pass
+
+class Chan:
+    def __init__(self): self.q = []; self.head = 0; self.senders = 1; self.receivers = 1; self.sent = 0
+class SenderObj:
+    def __init__(self, ch): self.ch = ch; self.alive = True
+    def on_drop(self, e):
+        if self.alive: self.alive = False; self.ch.senders -= 1
+    def clone(self, e): self.ch.senders += 1; return SenderObj(self.ch)
+    def __repr__(self): return 'Sender'
+class ReceiverObj:
+    def __init__(self, ch): self.ch = ch; self.alive = True
+    def on_drop(self, e):
+        if self.alive: self.alive = False; self.ch.receivers -= 1
+    def clone(self, e): self.ch.receivers += 1; return ReceiverObj(self.ch)
+    def __repr__(self): return 'Receiver'
+
+LOCAL = {}
+def lmodel(*names):
+    def deco(f):
+        f.model_name = 'crossbeam:' + names[0]
+        for n in names: LOCAL[n] = f
+        return f
+    return deco
+
+@lmodel('unbounded', 'crossbeam_channel::unbounded')
+def _unbounded(e, c, a):
+    ch = Chan()
+    e.hooks.setdefault('channels', []).append(ch)
+    return Struct([SenderObj(ch), ReceiverObj(ch)])
+@lmodel('Sender::send')
+def _send(e, c, a):
+    s = unguard(a[0])
+    if s.ch.receivers == 0: return Err(Struct([a[1]]))
+    s.ch.q.append(a[1]); s.ch.sent += 1
+    return Ok(UNIT)
+def visible(e, ch):
+    cut = e.hooks.get('chan_cut')
+    if cut is None: return len(ch.q)
+    return cut(e, ch)
+@lmodel('Receiver::try_recv')
+def _try_recv(e, c, a):
+    r = unguard(a[0]); ch = r.ch
+    if ch.head < visible(e, ch):
+        m = ch.q[ch.head]; ch.head += 1; return Ok(m)
+    if ch.senders == 0 and ch.head >= len(ch.q): return Err(Enum('Disconnected', [], 'TryRecvError'))
+    return Err(Enum('Empty', [], 'TryRecvError'))
+@lmodel('Receiver::recv')
+def _recv(e, c, a):
+    r = unguard(a[0]); ch = r.ch
+    if ch.head < len(ch.q):
+        m = ch.q[ch.head]; ch.head += 1; return Ok(m)
+    if ch.senders == 0: return Err(UNIT)
+    raise Hang('recv() on an empty channel whose sender is still alive: blocks forever')
+@lmodel('Receiver::iter', 'Receiver::into_iter')
+def _iter(e, c, a):
+    r = unguard(a[0]); ch = r.ch
+    def nxt(e_):
+        if ch.head < len(ch.q):
+            m = ch.q[ch.head]; ch.head += 1; return m
+        if ch.senders == 0: return None
+        raise Hang('iteration over a channel whose sender was never dropped: blocks forever')
+    return It(nxt)
+@lmodel('Receiver::try_iter')
+def _try_iter(e, c, a):
+    r = unguard(a[0]); ch = r.ch
+    def nxt(e_):
+        if ch.head < visible(e, ch):
+            m = ch.q[ch.head]; ch.head += 1; return m
+        return None
+    return It(nxt)
+@lmodel('<Sender as Clone>::clone', '<Receiver as Clone>::clone')
+def _clone(e, c, a): return unguard(a[0]).clone(e)
+@lmodel('Receiver::is_empty')
+def _is_empty(e, c, a):
+    ch = unguard(a[0]).ch; return ch.head >= len(ch.q)
+@lmodel('Receiver::len')
+def _len(e, c, a):
+    ch = unguard(a[0]).ch; return len(ch.q) - ch.head
+
+def install(e):
+    e.models.update(LOCAL)
